@@ -19,7 +19,7 @@ from ..astx import (
 from ..core import AnalysisError, Ctx, rule
 
 
-@rule("C07.1", ["C07"], "a modification is filed in exactly one store and both stores are consulted for every block", 5)
+@rule("C07.1", ["C07", "C01"], "a modification is filed in exactly one store and both stores are consulted for every block", 5)
 def c07_1(ctx: Ctx):
     repo = ctx.repo
     fi = repo.func("rewriting._ModificationStore.add")
@@ -210,7 +210,7 @@ def c07_6(ctx: Ctx):
     ctx.check("self._passes.append(pass_inst)" in src(ad.node), ad, ad.node, "passes are kept in registration order", "pass list handling changed")
 
 
-@rule("C07.8", ["C07"], "optional function filters are tested with `is None`, never by truthiness (an empty filter is a filter)", 2)
+@rule("C07.8", ["C07", "C01"], "optional function filters are tested with `is None`, never by truthiness (an empty filter is a filter)", 2)
 def c07_8(ctx: Ctx):
     repo = ctx.repo
     n = 0
